@@ -74,3 +74,25 @@ func opCall(seedTok, fn, expect string) (string, string) {
 	_, err := e.Call(e.Callers[0], path, "T"+fn, nil, 0)
 	return outcome(err, expect), verdict(e, e.Snapshot())
 }
+
+// opRun: MsgRun of a generated script against program <seed>.
+func opRun(seedTok, scriptTok, expect string) (string, string) {
+	if expect != "ok" && expect != "err" {
+		return "err:badop", "-"
+	}
+	if len(scriptTok) == 0 || len(scriptTok) > 18 || strings.Trim(scriptTok, "0123456789") != "" {
+		return "err:badop", "-"
+	}
+	e := ready()
+	path, ok := progPaths[seedTok]
+	if !ok {
+		return "err:badop", "-"
+	}
+	sseed, _ := strconv.ParseUint(scriptTok, 10, 64)
+	src := c06env.GenRunScript(sseed, path)
+	if os.Getenv("C06_SRC") != "" {
+		fmt.Fprintf(os.Stderr, "%s\n", src)
+	}
+	_, err := e.Run(e.Callers[0], src, 0)
+	return outcome(err, expect), verdict(e, e.Snapshot())
+}
